@@ -8,6 +8,9 @@ import BibVerif.Wire.Library
 import BibVerif.Wire.Writer
 import BibVerif.Wire.Enclosing
 import BibVerif.Wire.Interpolate
+import BibVerif.Wire.Month
+import BibVerif.Wire.SortFields
+import BibVerif.Wire.SortBlocks
 namespace Bib.Wire
 
 /-- every command the driver understands -/
@@ -15,5 +18,6 @@ def handlers : List (String × Handler) :=
   splitHandlers ++ addAllHandlers ++ stackHandlers ++ heapHandlers ++ latexHandlers
   ++ entryOpsHandlers ++ libraryHandlers
   ++ writerHandlers ++ enclosingHandlers ++ interpolateHandlers
+  ++ monthHandlers ++ fieldHandlers ++ sortBlocksHandlers
 
 end Bib.Wire
